@@ -30,6 +30,7 @@ void operator delete[](void *p, std::size_t) noexcept { std::free(p); }
 #include <amgcl/coarsening/tentative_prolongation.hpp>
 #include <amgcl/coarsening/aggregation.hpp>
 #include <amgcl/coarsening/smoothed_aggregation.hpp>
+#include <amgcl/coarsening/smoothed_aggr_emin.hpp>
 // connect()/cfsplit() are private static members; the harness looks at them directly
 #define private public
 #include <amgcl/coarsening/ruge_stuben.hpp>
@@ -178,6 +179,27 @@ VQ_OP(kron_sa) {
     GLUE(c23, static_cast<Q>(2.0/3));
     co::smoothed_aggregation<Backend> c(prm);
     EMPTY_GUARD( auto pr = c.transfer_operators(*K); return show_pr(pr); )
+}
+// emin A eps_strong eps2 block_size : smoothed_aggr_emin::transfer_operators
+VQ_OP(emin) {
+    auto A = t.crs(); Q eps = t.q(); Q eps2 = t.q(); long bs = t.i();
+    co::smoothed_aggr_emin<Backend>::params prm; prm.aggr.eps_strong = (float)eps; prm.aggr.block_size = (unsigned)bs;
+    GLUE(eps2, prm.aggr.eps_strong * prm.aggr.eps_strong);
+    co::smoothed_aggr_emin<Backend> c(prm);
+    EMPTY_GUARD( auto pr = c.transfer_operators(*A); return show_pr(pr); )
+}
+// emin2 A eps_strong eps2 eps2_next : two successive levels on the same policy object; prints A_coarse, P2, R2
+VQ_OP(emin2) {
+    auto A = t.crs(); Q eps = t.q(); Q eps2 = t.q(); Q eps2n = t.q();
+    co::smoothed_aggr_emin<Backend>::params prm; prm.aggr.eps_strong = (float)eps;
+    GLUE(eps2, prm.aggr.eps_strong * prm.aggr.eps_strong);
+    { float e = prm.aggr.eps_strong; e *= 0.5; GLUE(eps2n, e * e); }
+    co::smoothed_aggr_emin<Backend> c(prm);
+    EMPTY_GUARD(
+        auto pr = c.transfer_operators(*A);
+        auto Ac = c.coarse_operator(*A, *std::get<0>(pr), *std::get<1>(pr));
+        auto pr2 = c.transfer_operators(*Ac);
+        return show_crs(*Ac) + " " + show_pr(pr2); )
 }
 // rs A eps_strong do_trunc eps_trunc fill
 VQ_OP(rs) {
